@@ -221,6 +221,8 @@ func (p *Policy) sanitize(r io.Reader, w io.Writer) error {
 		skipClosingTag           bool
 		closingTagToSkipStack    []string
 		mostRecentlyStartedToken string
+		// whether the tag that set mostRecentlyStartedToken was written
+		mostRecentlyStartedTokenKept bool
 	)
 	defer func() {
 		verifEnd(r, skipElementContent, skippingElementsCount, skipClosingTag, closingTagToSkipStack, mostRecentlyStartedToken)
@@ -265,6 +267,7 @@ func (p *Policy) sanitize(r io.Reader, w io.Writer) error {
 		case html.StartTagToken:
 
 			mostRecentlyStartedToken = normaliseElementName(token.Data)
+			mostRecentlyStartedTokenKept = false
 
 			switch normaliseElementName(token.Data) {
 			case `script`:
@@ -329,6 +332,7 @@ func (p *Policy) sanitize(r io.Reader, w io.Writer) error {
 				if _, err := buff.WriteString(token.String()); err != nil {
 					return err
 				}
+				mostRecentlyStartedTokenKept = true
 			}
 
 		case html.EndTagToken:
@@ -399,6 +403,7 @@ func (p *Policy) sanitize(r io.Reader, w io.Writer) error {
 			// the tokenizer reads what follows <script/> or <style/> as the
 			// raw text of that element, exactly as it does after a start tag
 			mostRecentlyStartedToken = normaliseElementName(token.Data)
+			mostRecentlyStartedTokenKept = false
 
 			switch normaliseElementName(token.Data) {
 			case `script`:
@@ -443,6 +448,7 @@ func (p *Policy) sanitize(r io.Reader, w io.Writer) error {
 				if _, err := buff.WriteString(token.String()); err != nil {
 					return err
 				}
+				mostRecentlyStartedTokenKept = true
 			}
 
 		case html.TextToken:
@@ -453,9 +459,14 @@ func (p *Policy) sanitize(r io.Reader, w io.Writer) error {
 					// not encouraged, but if a policy allows JavaScript we
 					// should not HTML escape it as that would break the output
 					//
-					// requires p.AllowUnsafe()
+					// requires p.AllowUnsafe(), and only inside an element whose
+					// tag was written: the text of a removed one is escaped
 					if p.allowUnsafe {
-						if _, err := buff.WriteString(token.Data); err != nil {
+						text := token.Data
+						if !mostRecentlyStartedTokenKept {
+							text = token.String()
+						}
+						if _, err := buff.WriteString(text); err != nil {
 							return err
 						}
 					}
@@ -463,9 +474,14 @@ func (p *Policy) sanitize(r io.Reader, w io.Writer) error {
 					// not encouraged, but if a policy allows CSS styles we
 					// should not HTML escape it as that would break the output
 					//
-					// requires p.AllowUnsafe()
+					// requires p.AllowUnsafe(), and only inside an element whose
+					// tag was written: the text of a removed one is escaped
 					if p.allowUnsafe {
-						if _, err := buff.WriteString(token.Data); err != nil {
+						text := token.Data
+						if !mostRecentlyStartedTokenKept {
+							text = token.String()
+						}
+						if _, err := buff.WriteString(text); err != nil {
 							return err
 						}
 					}
